@@ -806,14 +806,22 @@ Proof.
     + subst x0. apply Nat.ltb_lt. rewrite Ex. rewrite (index_dst_nth _ _ _ (Hnd _) E1). exact E3.
 Qed.
 
+Lemma NoDup_app_disjoint {A} (l1 l2 : list A) : NoDup (l1 ++ l2) -> forall x, In x l1 -> In x l2 -> False.
+Proof.
+  induction l1 as [|a l1 IH]; intros Hn x H1 H2; [destruct H1|]. cbn in Hn. inversion Hn as [|? ? Ha Hn']; subst.
+  destruct H1 as [<-|H1]; [apply Ha; apply in_app_iff; now right|exact (IH Hn' x H1 H2)].
+Qed.
+
 (* what holds after a subtree has been read *)
 Definition SubPost (ord : list nat) (pr : nat -> nat) (st : rstate) (c : nat) (log' : list (nat * nat)) (st' : rstate) : Prop :=
   exists new pr', RI (ord ++ c :: new) pr' log' st' /\ r_stack st' = r_stack st /\ r_pend st' = None /\
-    (forall w, In w ord -> pr' w = match par c with Some (p, _) => if Nat.eqb w p then S (pr w) else pr w | None => pr w end).
+    (forall w, In w ord -> pr' w = match par c with Some (p, _) => if Nat.eqb w p then S (pr w) else pr w | None => pr w end) /\
+    (forall w, In w (c :: new) -> pr' w = length (row m w)) /\ Forall (fun w => par w <> None) new.
 
 Definition GoPost (ord : list nat) (pr : nat -> nat) (st : rstate) (x : nat) (log' : list (nat * nat)) (st' : rstate) : Prop :=
   exists new pr', RI (ord ++ new) pr' log' st' /\ r_stack st' = r_stack st /\ r_pend st' = None /\
-    pr' x = length (row m x) /\ (forall w, In w ord -> w <> x -> pr' w = pr w).
+    pr' x = length (row m x) /\ (forall w, In w ord -> w <> x -> pr' w = pr w) /\
+    (forall w, In w new -> pr' w = length (row m w)) /\ Forall (fun w => par w <> None) new.
 
 Theorem atoks_sim : forall fuel c log ts log', atoks fuel m c log = Ok (ts, log') ->
   forall ord pr st, RI ord pr log st -> ~ In c ord ->
@@ -837,7 +845,7 @@ Proof.
                 exists st', steps st0 ts0 = Some st' /\ GoPost ord0 pr0 st0 x lg' st') end.
   { induction l as [|e rest IHl]; intros x lg ts0 lg' Eg ord0 pr0 st0 HR Hx Hsk Hprev Hpend.
     - inversion Eg; subst. exists st0. split; [reflexivity|]. exists [], pr0. rewrite app_nil_r.
-      split; [exact HR|]. split; [reflexivity|]. split; [exact Hpend|]. split; [|auto].
+      split; [exact HR|]. split; [reflexivity|]. split; [exact Hpend|]. split; [|split; [auto|split; [intros w []|constructor]]].
       apply skipn_nil_len in Hsk. pose proof (em_le _ _ (ri_em _ _ _ _ HR) x). lia.
     - destruct (skipn_nth _ _ _ _ Hsk) as [Ee Hsk'].
       assert (Hein : In e (row m x)) by (eapply nth_error_In; exact Ee).
@@ -855,10 +863,10 @@ Proof.
           destruct (step_ring_close ord0 pr0 lg (set_pend st0 (pend_of e)) x e i (RI_set_pend _ _ _ _ _ HR) Hx Ee Hre Ecl Ei Hprev eq_refl)
             as (st1 & Es1 & HR1 & P1 & S1 & Q1).
           cbn [N.of_nat] in Es1. rewrite Es1.
-          destruct (IHl x lg out lg' Er ord0 (upf pr0 x (S (pr0 x))) st1 HR1 Hx) as (st' & Es' & new & pr' & HR' & S' & Q' & F1 & F2).
+          destruct (IHl x lg out lg' Er ord0 (upf pr0 x (S (pr0 x))) st1 HR1 Hx) as (st' & Es' & new & pr' & HR' & S' & Q' & F1 & F2 & F3 & F4).
           { rewrite upf_same. first [exact Hsk'|reflexivity]. } { rewrite P1. exact Hprev. } { exact Q1. }
           exists st'. split; [exact Es'|]. exists new, pr'. split; [exact HR'|]. split; [rewrite S', S1; reflexivity|]. split; [exact Q'|].
-          split; [exact F1|]. intros w Hw Hwx. rewrite (F2 w Hw Hwx). now apply upf_other.
+          split; [exact F1|]. split; [|split; [exact F3|exact F4]]. intros w Hw Hwx. rewrite (F2 w Hw Hwx). now apply upf_other.
         * assert (Hnk : ~ In (key_of x (b_dst e)) lg) by (intro X; apply Hcl in X; discriminate).
           rewrite (Lnew Hnk) in Eg.
           match type of Eg with (do _ <- ?X; _) = _ => destruct X as [[out lg3]|] eqn:Er end; cbn [bind] in Eg; [|discriminate].
@@ -867,10 +875,10 @@ Proof.
           destruct (step_ring_open ord0 pr0 lg (set_pend st0 (pend_of e)) x e (RI_set_pend _ _ _ _ _ HR) Hx Ee Hre Ecl Hnk Hprev eq_refl)
             as (st1 & Es1 & HR1 & P1 & S1 & Q1).
           cbn [N.of_nat] in Es1. rewrite Es1.
-          destruct (IHl x _ out lg' Er ord0 (upf pr0 x (S (pr0 x))) st1 HR1 Hx) as (st' & Es' & new & pr' & HR' & S' & Q' & F1 & F2).
+          destruct (IHl x _ out lg' Er ord0 (upf pr0 x (S (pr0 x))) st1 HR1 Hx) as (st' & Es' & new & pr' & HR' & S' & Q' & F1 & F2 & F3 & F4).
           { rewrite upf_same. first [exact Hsk'|reflexivity]. } { rewrite P1. exact Hprev. } { exact Q1. }
           exists st'. split; [exact Es'|]. exists new, pr'. split; [exact HR'|]. split; [rewrite S', S1; reflexivity|]. split; [exact Q'|].
-          split; [exact F1|]. intros w Hw Hwx. rewrite (F2 w Hw Hwx). now apply upf_other.
+          split; [exact F1|]. split; [|split; [exact F3|exact F4]]. intros w Hw Hwx. rewrite (F2 w Hw Hwx). now apply upf_other.
       + (* a tree entry: the subtree of the child *)
         set (d := b_dst e) in *.
         destruct (atoks f m d lg) as [[sub lg2]|] eqn:Es; cbn [bind] in Eg; [|discriminate].
@@ -883,10 +891,10 @@ Proof.
         * (* last entry: no parentheses *)
           inversion Er; subst out lg3. inversion Eg; subst; clear Eg.
           rewrite (steps_btoks st0 e _ (pos ord0 x) Hpend Hprev Hoe). rewrite app_nil_r.
-          destruct (IH d lg sub lg' Es ord0 pr0 (set_pend st0 (pend_of e)) (RI_set_pend _ _ _ _ _ HR) Hd) as (st' & Es' & new & pr' & HR' & S' & Q' & F').
+          destruct (IH d lg sub lg' Es ord0 pr0 (set_pend st0 (pend_of e)) (RI_set_pend _ _ _ _ _ HR) Hd) as (st' & Es' & new & pr' & HR' & S' & Q' & F' & C' & P').
           { rewrite Hpard. auto. }
           exists st'. split; [exact Es'|]. exists (d :: new), pr'. split; [exact HR'|]. split; [exact S'|]. split; [exact Q'|].
-          rewrite Hpard in F'. split.
+          rewrite Hpard in F'. split; [|split; [|split; [exact C'|constructor; [congruence|exact P']]]].
           -- rewrite (F' x Hx), Nat.eqb_refl. apply skipn_nil_len in Hsk'. assert (pr0 x < length (row m x))%nat by (apply nth_error_Some; congruence). lia.
           -- intros w Hw Hwx. rewrite (F' w Hw). destruct (Nat.eqb_spec w x); [contradiction|reflexivity].
         * (* not the last: the subtree is parenthesised *)
@@ -895,20 +903,25 @@ Proof.
           set (st1 := {| r_atoms := r_atoms st0; r_nbrs := r_nbrs st0; r_prev := Some (pos ord0 x); r_stack := Some (pos ord0 x) :: r_stack st0; r_pend := None; r_open := r_open st0 |}).
           assert (HR1 : RI ord0 pr0 lg st1) by (destruct HR; constructor; assumption).
           rewrite (steps_btoks st1 e _ (pos ord0 x) eq_refl eq_refl Hoe), steps_app.
-          destruct (IH d lg sub lg2 Es ord0 pr0 (set_pend st1 (pend_of e)) (RI_set_pend _ _ _ _ _ HR1) Hd) as (st2 & Es2 & new & pr2 & HR2 & S2 & Q2 & F2).
+          destruct (IH d lg sub lg2 Es ord0 pr0 (set_pend st1 (pend_of e)) (RI_set_pend _ _ _ _ _ HR1) Hd) as (st2 & Es2 & new & pr2 & HR2 & S2 & Q2 & F2 & C2 & P2).
           { rewrite Hpard. auto. }
           rewrite Es2. cbn [steps step]. rewrite Q2, S2. cbn [set_pend r_stack st1].
           set (st3 := {| r_atoms := r_atoms st2; r_nbrs := r_nbrs st2; r_prev := Some (pos ord0 x); r_stack := r_stack st0; r_pend := None; r_open := r_open st2 |}).
           assert (HR3 : RI (ord0 ++ d :: new) pr2 lg2 st3) by (destruct HR2; constructor; assumption).
           rewrite Hpard in F2.
           assert (Hx3 : In x (ord0 ++ d :: new)) by (apply in_app_iff; now left).
-          destruct (IHl x lg2 out lg' Er (ord0 ++ d :: new) pr2 st3 HR3 Hx3) as (st' & Es' & new' & pr' & HR' & S' & Q' & F1 & F2').
+          destruct (IHl x lg2 out lg' Er (ord0 ++ d :: new) pr2 st3 HR3 Hx3) as (st' & Es' & new' & pr' & HR' & S' & Q' & F1 & F2' & F3' & F4').
           { rewrite (F2 x Hx), Nat.eqb_refl. exact Hsk'. }
           { cbn [st3 r_prev]. f_equal. symmetry. now apply pos_app_in. }
           { reflexivity. }
           exists st'. split; [exact Es'|]. exists ((d :: new) ++ new'), pr'. rewrite app_assoc. split; [exact HR'|].
-          split; [rewrite S'; reflexivity|]. split; [exact Q'|]. split; [exact F1|].
-          intros w Hw Hwx. rewrite (F2' w ltac:(apply in_app_iff; now left) Hwx). rewrite (F2 w Hw). destruct (Nat.eqb_spec w x); [contradiction|reflexivity]. }
+          split; [rewrite S'; reflexivity|]. split; [exact Q'|]. split; [exact F1|]. split; [|split].
+          -- intros w Hw Hwx. rewrite (F2' w ltac:(apply in_app_iff; now left) Hwx). rewrite (F2 w Hw). destruct (Nat.eqb_spec w x); [contradiction|reflexivity].
+          -- intros w Hw. apply in_app_iff in Hw as [Hw|Hw]; [|now apply F3'].
+             assert (Hwx : w <> x).
+             { intro; subst w. pose proof (em_nodup _ _ (ri_em _ _ _ _ HR2)) as Nd. exact (NoDup_app_disjoint _ _ Nd x Hx Hw). }
+             rewrite (F2' w ltac:(apply in_app_iff; now right) Hwx). now apply C2.
+          -- apply Forall_app. split; [constructor; [congruence|exact P2]|exact F4']. }
   (* the atom itself, then its row *)
   match type of E with (do _ <- ?X; _) = _ => destruct X as [[out lg2]|] eqn:Eg end; cbn [bind] in E; [|discriminate].
   inversion E; subst; clear E. rewrite <- Eaat. cbn [steps].
@@ -919,25 +932,27 @@ Proof.
     rewrite Es1.
     assert (Hcin : In (b_dst e) (ord ++ [b_dst e])) by (apply in_app_iff; right; now left).
     assert (Hcp : b_dst e <> p) by (destruct (Hb p e Hein) as (_ & _ & F); specialize (F Hre); lia).
-    destruct (G (row m (b_dst e)) (b_dst e) log out log' Eg (ord ++ [b_dst e]) (upf pr p (S (pr p))) st1 HR1 Hcin) as (st' & Es' & new & pr' & HR' & S' & Q' & F1 & F2).
+    destruct (G (row m (b_dst e)) (b_dst e) log out log' Eg (ord ++ [b_dst e]) (upf pr p (S (pr p))) st1 HR1 Hcin) as (st' & Es' & new & pr' & HR' & S' & Q' & F1 & F2 & F3 & F4).
     { rewrite (upf_other _ _ _ _ Hcp). rewrite (em_zero _ _ (ri_em _ _ _ _ HRI) _ Hc). reflexivity. }
     { rewrite P1. f_equal. symmetry. now apply pos_app_new. }
     { exact Q1. }
     exists st'. split; [exact Es'|]. exists new, pr'. rewrite <- app_assoc in HR'. cbn [app] in HR'.
-    split; [exact HR'|]. split; [rewrite S', S1; reflexivity|]. split; [exact Q'|].
-    intros w Hw. assert (Hwc : w <> b_dst e) by (intro; subst; contradiction).
-    rewrite (F2 w ltac:(apply in_app_iff; now left) Hwc). rewrite Epar. unfold upf. destruct (Nat.eqb_spec w p); subst; reflexivity.
+    split; [exact HR'|]. split; [rewrite S', S1; reflexivity|]. split; [exact Q'|]. split; [|split; [|exact F4]].
+    + intros w Hw. assert (Hwc : w <> b_dst e) by (intro; subst; contradiction).
+      rewrite (F2 w ltac:(apply in_app_iff; now left) Hwc). rewrite Epar. unfold upf. destruct (Nat.eqb_spec w p); subst; reflexivity.
+    + intros w [<-|Hw]; [exact F1|now apply F3].
   - destruct Hvia as (Hprev & Hpend).
     destruct (step_root ord pr log st c HRI Epar Hc Hprev Hpend) as (st1 & Es1 & HR1 & P1 & S1 & Q1).
     rewrite Es1.
     assert (Hcin : In c (ord ++ [c])) by (apply in_app_iff; right; now left).
-    destruct (G (row m c) c log out log' Eg (ord ++ [c]) pr st1 HR1 Hcin) as (st' & Es' & new & pr' & HR' & S' & Q' & F1 & F2).
+    destruct (G (row m c) c log out log' Eg (ord ++ [c]) pr st1 HR1 Hcin) as (st' & Es' & new & pr' & HR' & S' & Q' & F1 & F2 & F3 & F4).
     { rewrite (em_zero _ _ (ri_em _ _ _ _ HRI) _ Hc). reflexivity. }
     { rewrite P1. f_equal. symmetry. now apply pos_app_new. }
     { exact Q1. }
     exists st'. split; [exact Es'|]. exists new, pr'. rewrite <- app_assoc in HR'. cbn [app] in HR'.
-    split; [exact HR'|]. split; [rewrite S', S1; reflexivity|]. split; [exact Q'|].
-    intros w Hw. assert (Hwc : w <> c) by (intro; subst; contradiction).
-    rewrite Epar. exact (F2 w ltac:(apply in_app_iff; now left) Hwc).
+    split; [exact HR'|]. split; [rewrite S', S1; reflexivity|]. split; [exact Q'|]. split; [|split; [|exact F4]].
+    + intros w Hw. assert (Hwc : w <> c) by (intro; subst; contradiction).
+      rewrite Epar. exact (F2 w ltac:(apply in_app_iff; now left) Hwc).
+    + intros w [<-|Hw]; [exact F1|now apply F3].
 Qed.
 End Sim.
